@@ -38,7 +38,21 @@ def follow_on(a):
     return y.sum()
 
 
+RUNS = [0]
+
+
 def run_program(chk, da, prog, sources, want):
+    """default configuration, and for every third program also array.optimize-graph = False (the entry points must agree and
+    keep name / keys / chunks under that setting too)"""
+    _run_program(chk, da, prog, sources, want)
+    RUNS[0] += 1
+    if RUNS[0] % 3 == 0:
+        with dask.config.set({"array.optimize-graph": False}):
+            chk.count("config:optimize-graph-off")
+            _run_program(chk, da, prog, sources, want, tag="optimize-graph=False")
+
+
+def _run_program(chk, da, prog, sources, want, tag=None):
     from dask_array import _materialize
     _materialize._LOWER_CACHE.clear()
     for o in progs.ops_in(prog):
@@ -54,8 +68,10 @@ def run_program(chk, da, prog, sources, want):
         chk.case(("prog", progs.show(prog)), nontrivial=False)
         return
     nan_chunks = any(isinstance(c, float) for dim in x.chunks for c in dim)
-    chk.case(("prog", progs.show(prog), repr([(s[0].shape, s[1]) for s in sources])), nontrivial=len(progs.all_nodes(prog)) > 1,
+    chk.case(("prog", progs.show(prog), repr([(s[0].shape, s[1]) for s in sources]), tag), nontrivial=len(progs.all_nodes(prog)) > 1,
              sample=desc if len(progs.all_nodes(prog)) <= 4 else None)
+    if tag:
+        desc = {**desc, "config": tag}
     other = da.arange(5, chunks=2) * 2
     entry = {
         "dask.compute": lambda: dask.compute(x, other, scheduler="sync")[0],
